@@ -236,7 +236,7 @@ fn check_execution(prog: &Prog, l: &ExecLog) -> Result<(bool, bool), String> {
                     let (a, b) = (find(&mut comp, t), find(&mut comp, *c));
                     comp[a] = b;
                 }
-                Op::Park | Op::EvSet(_) | Op::EvWake(_) | Op::EvWait(_) | Op::EvWaitThen(..) | Op::Abort(_) | Op::IsFinished(_) | Op::AcqStart(..) | Op::Tls(_) | Op::Lazy(_) | Op::StaticOnce => opaque[t] = true,
+                Op::Park | Op::EvSet(_) | Op::EvWake(_) | Op::EvWait(_) | Op::EvWaitThen(..) | Op::Abort(_) | Op::IsFinished(_) | Op::JoinProbe(_) | Op::AcqStart(..) | Op::Tls(_) | Op::Lazy(_) | Op::StaticOnce => opaque[t] = true,
                 _ => {}
             }
         }
